@@ -5,6 +5,7 @@ import (
 	"fmt"
 	"os"
 	"path/filepath"
+	"runtime"
 	"runtime/debug"
 	"strings"
 	"sync"
@@ -131,7 +132,7 @@ type sRef struct {
 }
 
 type storeStats struct {
-	histories, gets, disagree, nontrivial int64
+	histories, gets, disagree, nontrivial, multiWorld int64
 }
 
 func nameStr(n enc.Name) string {
@@ -156,16 +157,23 @@ func runStores(rep *report.Reporter, thorough bool, deadline time.Time) map[stri
 	if thorough {
 		mixSmall = 3
 	}
-	vb := enumStores(rep, mkBoundaryUniverse(), 3, 3, 3, deadline)
+	// Removes as members of transactions: every level of the mixed region, except (quick tier) the
+	// deepest level of the boundary universe; at depth 3 of the main universe the quick tier runs
+	// the assignments in which such a Remove matches a packet Put before it or in its group
+	vbRem, hits := 2, 3
+	if thorough {
+		vbRem, hits = 3, 0
+	}
+	vb := enumStores(rep, mkBoundaryUniverse(), 3, 3, 3, vbRem, 0, deadline)
 	// look-alike names (components that differ in type only): every history of depth <= 3
-	ty := enumStores(rep, mkTypedUniverse(), 3, 3, mixSmall, deadline)
+	ty := enumStores(rep, mkTypedUniverse(), 3, 3, mixSmall, mixSmall, 0, deadline)
 	// prefix-related packet names: every history of depth <= 3 (thorough: 4, transaction mode 3)
 	nd := 3
 	if thorough {
 		nd = 4
 	}
-	ne := enumStores(rep, mkNestedUniverse(), nd, 3, mixSmall, deadline)
-	cov := enumStores(rep, mkUniverse(thorough), 4, txDepth, 3, deadline)
+	ne := enumStores(rep, mkNestedUniverse(), nd, 3, mixSmall, mixSmall, 0, deadline)
+	cov := enumStores(rep, mkUniverse(thorough), 4, txDepth, 3, 3, hits, deadline)
 	cov["version_boundaries"] = vb
 	cov["lookalike_names"] = ty
 	cov["prefix_related_names"] = ne
@@ -291,7 +299,10 @@ func mkNestedUniverse() *sUniverse {
 	return u
 }
 
-func enumStores(rep *report.Reporter, u *sUniverse, depth, txDepth, mixDepth int, deadline time.Time) map[string]any {
+// remTxDepth: deepest mixed-mode level at which a Remove can be a member of a group transaction
+// (letters G/R on Remove positions); hitsAt: from this level on only assignments in which such a
+// Remove matches a packet Put before it or in its group are run (0: never restricted).
+func enumStores(rep *report.Reporter, u *sUniverse, depth, txDepth, mixDepth, remTxDepth, hitsAt int, deadline time.Time) map[string]any {
 	nops := int64(len(u.ops))
 	var total int64
 	pow := int64(1)
@@ -365,7 +376,7 @@ func enumStores(rep *report.Reporter, u *sUniverse, depth, txDepth, mixDepth int
 			hist[k] = int(i % nops)
 			i /= nops
 		}
-		ms := mixedModes(u, hist, d <= txDepth)
+		ms := mixedModes(u, hist, d <= txDepth, d <= remTxDepth, hitsAt > 0 && d >= hitsAt)
 		if len(ms) == 0 {
 			return
 		}
@@ -434,7 +445,10 @@ func enumStores(rep *report.Reporter, u *sUniverse, depth, txDepth, mixDepth int
 	}
 	return map[string]any{
 		"mixed_mode": map[string]any{"max_depth": mixDepth, "depth_completed": mixDone, "runs": atomic.LoadInt64(&mixedRuns),
-			"modes_per_put": "D outside any transaction / T own transaction after a rolled-back decoy transaction / G consecutive Puts in one transaction"},
+			"modes_per_put":                   "D outside any transaction / T own transaction after a rolled-back decoy transaction / G member of a committed group transaction / R member of a rolled-back group transaction",
+			"modes_per_remove":                "D outside any transaction / G, R issued between Begin and Commit / Rollback of a group (exact and by prefix; both stores; a call that waits for the transaction is collected after it)",
+			"remove_in_transaction_max_depth": remTxDepth, "remove_in_transaction_only_matching_from_depth": hitsAt,
+			"histories_with_more_than_one_legal_reading": atomic.LoadInt64(&st.multiWorld)},
 		"packets": len(u.pkts), "operations": len(u.ops), "queries": len(u.queries), "max_depth": depth, "max_depth_transaction_mode": txDepth,
 		"histories_total": total, "histories_done": done, "exhaustive": complete,
 		"get_comparisons":                            atomic.LoadInt64(&st.gets),
@@ -444,17 +458,23 @@ func enumStores(rep *report.Reporter, u *sUniverse, depth, txDepth, mixDepth int
 	}
 }
 
-// storeModes: the way each Put of a history reaches the stores, one letter per position:
+// storeModes: the way each operation of a history reaches the stores, one letter per position:
 //
-//	D  Put outside any transaction
-//	T  Begin / Put of a decoy / Rollback, then Begin / Put / Commit (a transaction of its own)
-//	G  like T, but consecutive G Puts share ONE transaction (Begin, Put, Put, ..., Commit: what
-//	   Client.Produce does with the segments of an object); the transaction is committed before the
-//	   next operation that is not a G Put, and at the end of the history
+//	D  Put / Remove outside any transaction
+//	T  (Put only) Begin / Put of a decoy / Rollback, then Begin / Put / Commit (a transaction of its own)
+//	G  member of a COMMITTED group: consecutive G positions share ONE transaction (Begin, op, op, ...,
+//	   Commit: what Client.Produce does with the segments of an object, and what an application does
+//	   that replaces a version: Begin, Remove old, Put new, Commit); the transaction is committed
+//	   before the next operation that is not a G position, and at the end of the history. A group that
+//	   starts with a Put is preceded by the rolled-back decoy transaction of T
+//	R  member of a ROLLED-BACK group: like G, but the transaction ends with Rollback
 //
-// mode "direct" = all D, "tx" = all T, "mix:<letters>" = the given letters (positions holding a
-// Remove carry D). A history in mixed mode interleaves Puts outside transactions with committed and
-// rolled-back transactions in every order.
+// A Remove (exact or by prefix) can be a member of a group: it is then issued between Begin and
+// Commit/Rollback (see issueRemove for how a store that makes the caller wait is driven).
+//
+// mode "direct" = all D, "tx" = all Puts T, "mix:<letters>" = the given letters. A history in mixed
+// mode interleaves operations outside transactions with committed and rolled-back transactions in
+// every order.
 func storeModes(mode string, n int) []byte {
 	m := make([]byte, n)
 	for i := range m {
@@ -470,27 +490,59 @@ func storeModes(mode string, n int) []byte {
 	return m
 }
 
-// mixedModes lists the canonical mixed mode strings of one history: every assignment of D/T/G to
-// its Put positions except the uniform ones "all D" (and "all T" when the transaction-mode region
-// covers this depth), with G only where at least two G Puts are adjacent (a lone G is a T).
-func mixedModes(u *sUniverse, hist []int, txCovered bool) []string {
+// mixedModes lists the canonical mixed mode strings of one history: every assignment of D/T/G/R to
+// its Put positions and of D/G/R to its Remove positions (Removes only when txRemove is set: beyond
+// that depth a Remove is always outside transactions), except
+//   - the uniform ones "all D" and (when the transaction-mode region covers this depth) "all Puts T,
+//     all Removes D",
+//   - a lone G Put (no G neighbour: it is a T without the decoy),
+//   - histories without any Put (the stores stay empty).
+//
+// hitsOnly (quick tier, deepest level): an assignment in which a Remove is a group member is kept
+// only if some group-member Remove matches a name Put earlier in the history or in its own group
+// (a Remove that matches nothing ever Put is a no-op under every reading; the thorough tier runs
+// those too), and a rolled-back group of Puts only where some Remove is a group member. Without
+// txRemove the letter R is not used at all.
+func mixedModes(u *sUniverse, hist []int, txCovered, txRemove, hitsOnly bool) []string {
 	var out []string
 	n := len(hist)
 	cur := make([]byte, n)
+	matches := func(r sOp, p *sPkt) bool {
+		return p.name.Equal(r.rem) || (r.prefix && r.rem.IsPrefix(p.name))
+	}
 	var rec func(i int)
 	rec = func(i int) {
 		if i == n {
-			allD, allT, puts := true, true, 0
+			allD, allT, puts, txRem, hit, putR := true, true, 0, false, false, false
 			for k, c := range cur {
-				if u.ops[hist[k]].put == nil {
+				op := u.ops[hist[k]]
+				allD = allD && c == 'D'
+				if op.put == nil {
+					allT = allT && c == 'D'
+					if c != 'D' {
+						txRem = true
+						for j := 0; j < n && !hit; j++ {
+							if pj := u.ops[hist[j]].put; pj != nil && matches(op, pj) {
+								if j < k {
+									hit = true
+								} else { // later Put of the same group
+									same := true
+									for x := k; x <= j; x++ {
+										same = same && cur[x] == c
+									}
+									hit = same
+								}
+							}
+						}
+					}
 					continue
 				}
 				puts++
-				allD = allD && c == 'D'
 				allT = allT && c == 'T'
+				putR = putR || c == 'R'
 				if c == 'G' {
-					l := k > 0 && cur[k-1] == 'G' && u.ops[hist[k-1]].put != nil
-					r := k+1 < n && cur[k+1] == 'G' && u.ops[hist[k+1]].put != nil
+					l := k > 0 && cur[k-1] == 'G'
+					r := k+1 < n && cur[k+1] == 'G'
 					if !l && !r {
 						return
 					}
@@ -499,15 +551,23 @@ func mixedModes(u *sUniverse, hist []int, txCovered bool) []string {
 			if puts == 0 || allD || (allT && txCovered) {
 				return
 			}
+			if hitsOnly && ((txRem && !hit) || (!txRem && putR)) {
+				return
+			}
 			out = append(out, "mix:"+string(cur))
 			return
 		}
-		if u.ops[hist[i]].put == nil {
-			cur[i] = 'D'
-			rec(i + 1)
-			return
+		letters := "DTGR"
+		if !txRemove {
+			letters = "DTG"
 		}
-		for _, c := range []byte("DTG") {
+		if u.ops[hist[i]].put == nil {
+			letters = "D"
+			if txRemove {
+				letters = "DGR"
+			}
+		}
+		for _, c := range []byte(letters) {
 			cur[i] = c
 			rec(i + 1)
 		}
@@ -516,47 +576,232 @@ func mixedModes(u *sUniverse, hist []int, txCovered bool) []string {
 	return out
 }
 
+// issueRemove calls Remove on a store while a transaction is open on it. ndn.Store does not say
+// what a Remove issued between Begin and Commit does ("begin a write transaction (for put only)"),
+// and the two stores differ: MemoryStore.Remove returns at once; BoltStore.Remove opens a write
+// transaction of its own and therefore WAITS until the open one has ended (from the goroutine that
+// owns the open transaction it would wait for itself). The call is therefore made on a goroutine of
+// its own, as an application thread that removes packets while a producer thread holds the
+// transaction would: if the call returns (the calling goroutine yields a bounded number of times to
+// let it), its result is taken now; otherwise the history goes on and the result is collected after
+// the transaction has ended (pending != nil). Either way is legal; the oracle never depends on which
+// of the two happened, only on "Remove has returned success and the transaction is over".
+func issueRemove(s ndn.Store, name enc.Name, prefix bool, mayWait bool) (err error, pending chan error) {
+	done := make(chan error, 1)
+	go func() { done <- s.Remove(name, prefix) }()
+	if !mayWait {
+		return awaitRemove(done), nil
+	}
+	for i := 0; i < 64; i++ {
+		runtime.Gosched()
+		select {
+		case err = <-done:
+			return err, nil
+		default:
+		}
+	}
+	return nil, done
+}
+
+// awaitRemove collects the result of a Remove call; a call that does not return within a minute of
+// the end of its transaction is a hung harness (CHECK-ERROR), not a verdict.
+func awaitRemove(done chan error) error {
+	select {
+	case err := <-done:
+		return err
+	case <-time.After(60 * time.Second):
+		report.Fatal("store pass: a Remove call has not returned 60 s after the transaction it was issued in ended")
+		return nil
+	}
+}
+
+// sWorld is one legal reading of a history: name -> what is stored. A history without a Remove
+// inside a transaction has exactly one.
+type sWorld map[string]*sRef
+
+func (w sWorld) clone() sWorld {
+	c := make(sWorld, len(w)+2)
+	for k, v := range w {
+		c[k] = v
+	}
+	return c
+}
+
+func (w sWorld) key() string {
+	ks := make([]string, 0, len(w))
+	for k, r := range w {
+		ks = append(ks, k+"="+string(r.wire))
+	}
+	sortStrings(ks)
+	return strings.Join(ks, "|")
+}
+
+// sEvent is one member of a group transaction.
+type sEvent struct {
+	put *sPkt
+	ref *sRef
+	rem enc.Name
+	pfx bool
+}
+
+// groupWorlds: the legal states after a group transaction, from one state before it. The property
+// says "packets removed from a store are no longer served"; ndn.Store says transactions are "for
+// put only" and not to be relied on for atomicity. A Remove issued inside the transaction may
+// therefore take effect
+//
+//	(0) at once, on the committed packets only (it is no member of the transaction; Puts of the
+//	    transaction land at Commit, after it),
+//	(1) in program order as a member of the transaction (it also removes what the transaction has
+//	    Put before it; a later Put of the transaction stores the packet again),
+//	(2) when the transaction is over (the call waits for it: it also removes what the transaction
+//	    Put after it - those Puts precede the return of Remove);
+//
+// in a rolled-back transaction: (0) it stays in effect, or (1) it is undone with the transaction.
+// Every combination of readings of the Removes of the group is a legal world; in ALL of them a
+// packet that was stored before the Remove was issued, matches it and is not Put again is gone
+// after Commit - that is the two-valued part. Puts of a rolled-back group are in no world.
+func groupWorlds(w sWorld, evs []sEvent, commit bool, names map[string]enc.Name, out map[string]sWorld) {
+	var rems []int
+	for i, e := range evs {
+		if e.put == nil {
+			rems = append(rems, i)
+		}
+	}
+	nch := 3
+	if !commit {
+		nch = 2
+	}
+	total := 1
+	for range rems {
+		total *= nch
+	}
+	del := func(m sWorld, e sEvent) {
+		for k := range m {
+			if n := names[k]; n.Equal(e.rem) || (e.pfx && e.rem.IsPrefix(n)) {
+				delete(m, k)
+			}
+		}
+	}
+	for c := 0; c < total; c++ {
+		C, T := w.clone(), sWorld{}
+		var late []sEvent
+		x := c
+		for _, e := range evs {
+			if e.put != nil {
+				T[e.put.s] = e.ref
+				continue
+			}
+			ch := x % nch
+			x /= nch
+			switch {
+			case !commit && ch == 0, commit && ch == 0:
+				del(C, e)
+			case commit && ch == 1:
+				del(C, e)
+				del(T, e)
+			case commit && ch == 2:
+				late = append(late, e)
+			}
+		}
+		if commit {
+			for k, r := range T {
+				C[k] = r
+			}
+			for _, e := range late {
+				del(C, e)
+			}
+		}
+		out[C.key()] = C
+	}
+}
+
 func runStoreHistory(add func(report.Violation), u *sUniverse, hist []int, mode string, mem ndn.Store, bolt ndn.Store, st *storeStats, smp *report.Samples) {
 	modes := storeModes(mode, len(hist))
-	ref := map[string]*sRef{}
+	worlds := []sWorld{{}} // every legal reading of the history so far (one, unless a Remove was a member of a transaction)
 	names := map[string]enc.Name{}
 	removed := map[string]bool{}
+	removedInTx := map[string]bool{}
 	var labels []string
 	stores := []struct {
 		n string
 		s ndn.Store
 	}{{"mem", mem}, {"bolt", bolt}}
 	desc := func() string { return "[" + mode + "] " + strings.Join(labels, " ; ") }
-	open := false // a G transaction is open on both stores
+	rpl := func() map[string]any { return map[string]any{"store_history": labels, "mode": mode} }
+	grp := byte(0) // letter of the group transaction open on both stores (0: none)
+	var evs []sEvent
+	type pendRem struct {
+		store string
+		done  chan error
+	}
+	var pend []pendRem
 	closeGroup := func() {
-		if !open {
+		if grp == 0 {
 			return
 		}
-		open = false
+		commit := grp == 'G'
+		grp = 0
 		for _, s := range stores {
-			if err := s.s.Commit(); err != nil {
-				add(report.Violation{Clause: "C15.stores", Key: s.n + ": Commit returns an error", Detail: desc() + " :: " + err.Error(), Replay: map[string]any{"store_history": labels, "mode": mode}})
+			var err error
+			what := "Commit"
+			if commit {
+				err = s.s.Commit()
+			} else {
+				err = s.s.Rollback()
+				what = "Rollback"
+			}
+			if err != nil {
+				add(report.Violation{Clause: "C15.stores", Key: s.n + ": " + what + " returns an error", Detail: desc() + " :: " + err.Error(), Replay: rpl()})
+			}
+		}
+		for _, p := range pend {
+			if err := awaitRemove(p.done); err != nil {
+				add(report.Violation{Clause: "C15.removed", Key: p.store + ": Remove returns an error", Detail: desc() + " :: " + err.Error(), Replay: rpl()})
+			}
+		}
+		pend = nil
+		next := map[string]sWorld{}
+		for _, w := range worlds {
+			groupWorlds(w, evs, commit, names, next)
+		}
+		evs = nil
+		keys := make([]string, 0, len(next))
+		for k := range next {
+			keys = append(keys, k)
+		}
+		sortStrings(keys)
+		worlds = worlds[:0]
+		for _, k := range keys {
+			worlds = append(worlds, next[k])
+		}
+	}
+	markRemoved := func(op sOp, inTx bool) {
+		for k, n := range names {
+			if n.Equal(op.rem) || (op.prefix && op.rem.IsPrefix(n)) {
+				removed[k] = true
+				if inTx {
+					removedInTx[k] = true
+				}
 			}
 		}
 	}
 	for k, oi := range hist {
 		op := u.ops[oi]
-		if !(op.put != nil && modes[k] == 'G') {
+		member := modes[k] == 'G' || modes[k] == 'R'
+		if !member || grp != modes[k] {
 			closeGroup()
 		}
 		labels = append(labels, op.label)
 		if op.put != nil {
 			wire := append([]byte(op.put.s), byte('#'), byte('0'+k))
-			tx := modes[k] == 'T' || (modes[k] == 'G' && !open)
-			joined := modes[k] == 'G' && open
+			joined := member && grp != 0
+			decoy := modes[k] == 'T' || (modes[k] == 'G' && !joined)
 			for _, s := range stores {
 				var err error
-				if joined {
-					err = s.s.Put(op.put.name, op.put.ver, wire)
-				} else if tx {
-					// transaction mode: the Put is preceded by a transaction that is ROLLED BACK and
-					// that had put a decoy (another wire, a larger version) under the same name: a
-					// rolled-back packet was never published and must never be served
+				if decoy {
+					// the Put is preceded by a transaction that is ROLLED BACK and that had put a decoy
+					// (another wire, a larger version) under the same name: a rolled-back packet was
+					// never published and must never be served
 					if err = s.s.Begin(); err == nil {
 						err = s.s.Put(op.put.name, op.put.ver+1000, append([]byte("rolled-back:"), wire...))
 						if e2 := s.s.Rollback(); err == nil {
@@ -564,91 +809,142 @@ func runStoreHistory(add func(report.Violation), u *sUniverse, hist []int, mode 
 						}
 					}
 					if err != nil {
-						add(report.Violation{Clause: "C15.stores", Key: s.n + ": Begin/Put/Rollback returns an error", Detail: desc() + " :: " + err.Error(), Replay: map[string]any{"store_history": labels, "mode": mode}})
+						add(report.Violation{Clause: "C15.stores", Key: s.n + ": Begin/Put/Rollback returns an error", Detail: desc() + " :: " + err.Error(), Replay: rpl()})
 					}
+				}
+				switch {
+				case joined || modes[k] == 'D':
+					err = s.s.Put(op.put.name, op.put.ver, wire)
+				default: // T, or the first member of a group
 					if err = s.s.Begin(); err == nil {
 						err = s.s.Put(op.put.name, op.put.ver, wire)
-						if modes[k] != 'G' {
+						if modes[k] == 'T' {
 							if e2 := s.s.Commit(); err == nil {
 								err = e2
 							}
 						}
 					}
-				} else {
-					err = s.s.Put(op.put.name, op.put.ver, wire)
 				}
 				if err != nil {
-					add(report.Violation{Clause: "C15.stores", Key: s.n + ": Put returns an error", Detail: desc() + " :: " + err.Error(), Replay: map[string]any{"store_history": labels, "mode": mode}})
+					add(report.Violation{Clause: "C15.stores", Key: s.n + ": Put returns an error", Detail: desc() + " :: " + err.Error(), Replay: rpl()})
 				}
 			}
-			if modes[k] == 'G' {
-				open = true
-			}
-			ref[op.put.s] = &sRef{op.put.ver, wire}
 			names[op.put.s] = op.put.name
-			delete(removed, op.put.s)
+			ref := &sRef{op.put.ver, wire}
+			if member {
+				grp = modes[k]
+				evs = append(evs, sEvent{put: op.put, ref: ref})
+				if modes[k] == 'G' {
+					delete(removed, op.put.s)
+					delete(removedInTx, op.put.s)
+				}
+			} else {
+				for _, w := range worlds {
+					w[op.put.s] = ref
+				}
+				delete(removed, op.put.s)
+				delete(removedInTx, op.put.s)
+			}
+		} else if member {
+			for _, s := range stores {
+				var err error
+				if grp == 0 {
+					if err = s.s.Begin(); err != nil {
+						add(report.Violation{Clause: "C15.stores", Key: s.n + ": Begin returns an error", Detail: desc() + " :: " + err.Error(), Replay: rpl()})
+					}
+				}
+				err, p := issueRemove(s.s, op.rem, op.prefix, s.n == "bolt")
+				if p != nil {
+					pend = append(pend, pendRem{s.n, p})
+				} else if err != nil {
+					add(report.Violation{Clause: "C15.removed", Key: s.n + ": Remove returns an error", Detail: desc() + " :: " + err.Error(), Replay: rpl()})
+				}
+			}
+			grp = modes[k]
+			evs = append(evs, sEvent{rem: op.rem, pfx: op.prefix})
+			markRemoved(op, true)
 		} else {
 			for _, s := range stores {
 				if err := s.s.Remove(op.rem, op.prefix); err != nil {
-					add(report.Violation{Clause: "C15.removed", Key: s.n + ": Remove returns an error", Detail: desc() + " :: " + err.Error(), Replay: map[string]any{"store_history": labels, "mode": mode}})
+					add(report.Violation{Clause: "C15.removed", Key: s.n + ": Remove returns an error", Detail: desc() + " :: " + err.Error(), Replay: rpl()})
 				}
 			}
-			for k, n := range names {
-				if _, ok := ref[k]; !ok {
-					continue
-				}
-				if n.Equal(op.rem) || (op.prefix && op.rem.IsPrefix(n)) {
-					delete(ref, k)
-					removed[k] = true
+			markRemoved(op, false)
+			for _, w := range worlds {
+				for k := range w {
+					if n := names[k]; n.Equal(op.rem) || (op.prefix && op.rem.IsPrefix(n)) {
+						delete(w, k)
+					}
 				}
 			}
 		}
 	}
 	closeGroup()
 	atomic.AddInt64(&st.histories, 1)
+	if len(worlds) > 1 {
+		atomic.AddInt64(&st.multiWorld, 1)
+	}
 	bad := func(clause, key, detail string) {
-		add(report.Violation{Clause: clause, Key: key, Detail: "store history " + desc() + " :: " + detail,
-			Replay: map[string]any{"store_history": labels, "mode": mode}})
+		add(report.Violation{Clause: clause, Key: key, Detail: "store history " + desc() + " :: " + detail, Replay: rpl()})
+	}
+	// legal answers of one reading
+	legalIn := func(ref sWorld, q enc.Name, qs string, prefix bool) (legal [][]byte, under []string, nvers int, maxVer uint64) {
+		if !prefix {
+			if r := ref[qs]; r != nil {
+				legal = append(legal, r.wire)
+			}
+			return
+		}
+		for k, r := range ref {
+			if q.IsPrefix(names[k]) {
+				under = append(under, k)
+				if r.ver > maxVer {
+					maxVer = r.ver
+				}
+			}
+		}
+		vers := map[uint64]bool{}
+		for _, k := range under {
+			vers[ref[k].ver] = true
+			if ref[k].ver == maxVer {
+				legal = append(legal, ref[k].wire)
+			}
+		}
+		nvers = len(vers)
+		// a packet stored AT the queried name (nested universe): the exact hit is a legal
+		// answer too, whatever newer packets lie below it
+		if r := ref[qs]; r != nil && r.ver != maxVer {
+			legal = append(legal, r.wire)
+		}
+		return
 	}
 	nontriv := false
 	for _, q := range u.queries {
 		qs := nameStr(q)
 		for _, prefix := range []bool{false, true} {
-			// legal answers
 			var legal [][]byte
-			var under []string
+			nilLegal := false
 			nvers := 0
-			maxVer := uint64(0)
-			if !prefix {
-				if r := ref[qs]; r != nil {
-					legal = append(legal, r.wire)
+			maxVer := uint64(0) // largest "newest version under the prefix" over the readings
+			var under []string  // of the first reading (for the message)
+			for wi, w := range worlds {
+				l, un, nv, mv := legalIn(w, q, qs, prefix)
+				legal = append(legal, l...)
+				nilLegal = nilLegal || len(l) == 0
+				if nv > nvers {
+					nvers = nv
 				}
-			} else {
-				for k, r := range ref {
-					if q.IsPrefix(names[k]) {
-						under = append(under, k)
-						if r.ver > maxVer {
-							maxVer = r.ver
-						}
-					}
+				if mv > maxVer {
+					maxVer = mv
 				}
-				vers := map[uint64]bool{}
-				for _, k := range under {
-					vers[ref[k].ver] = true
-					if ref[k].ver == maxVer {
-						legal = append(legal, ref[k].wire)
-					}
-				}
-				nvers = len(vers)
-				if len(vers) > 1 {
-					nontriv = true
-				}
-				// a packet stored AT the queried name (nested universe): the exact hit is a legal
-				// answer too, whatever newer packets lie below it
-				if r := ref[qs]; r != nil && r.ver != maxVer {
-					legal = append(legal, r.wire)
+				if wi == 0 {
+					under = un
 				}
 			}
+			if nvers > 1 {
+				nontriv = true
+			}
+			ref := worlds[0]
 			var got [2][]byte
 			// MemoryStore walks Go maps (random order per walk): when the answer could depend on the
 			// order (two versions under the prefix) the question is asked repeatedly and every answer
@@ -668,7 +964,7 @@ func runStoreHistory(add func(report.Violation), u *sUniverse, hist []int, mode 
 					got[si] = w
 					ok := false
 					if w == nil {
-						ok = len(legal) == 0
+						ok = nilLegal
 					} else {
 						for _, l := range legal {
 							if bytes.Equal(l, w) {
@@ -680,6 +976,9 @@ func runStoreHistory(add func(report.Violation), u *sUniverse, hist []int, mode 
 						continue
 					}
 					what := fmt.Sprintf("%s.Get(%s, prefix=%v) = %q; stored under it: %s", s.n, qs, prefix, w, describe(ref, under, qs, prefix))
+					if len(worlds) > 1 {
+						what += fmt.Sprintf(" (first of %d legal readings of the Removes issued inside transactions; the answer is legal in none)", len(worlds))
+					}
 					switch {
 					case w == nil && prefix && maxVer == 0:
 						bad("C15.newest", s.n+": prefix Get never returns a version-0 packet", what)
@@ -690,20 +989,28 @@ func runStoreHistory(add func(report.Violation), u *sUniverse, hist []int, mode 
 					default:
 						// which packet was returned?
 						who := ""
-						for k, r := range ref {
-							if bytes.Equal(r.wire, w) {
-								who = k
+						var whoVer uint64
+						for _, wd := range worlds {
+							for k, r := range wd {
+								if bytes.Equal(r.wire, w) {
+									who, whoVer = k, r.ver
+								}
 							}
 						}
 						switch {
 						case who == "":
-							rm := false
+							rm, rmTx := false, false
 							for k := range removed {
 								if strings.HasPrefix(string(w), k+"#") {
 									rm = true
+									rmTx = rmTx || removedInTx[k]
 								}
 							}
-							if rm {
+							if rolledBack(u, hist, modes, w) {
+								bad("C15.stores", s.n+": Get returns a packet whose transaction was rolled back", what)
+							} else if rmTx {
+								bad("C15.removed", s.n+": a packet removed while a transaction was open is served after the transaction has ended", what)
+							} else if rm {
 								bad("C15.removed", s.n+": Get returns a removed (or overwritten) packet", what)
 							} else if bytes.HasPrefix(w, []byte("rolled-back:")) {
 								bad("C15.stores", s.n+": Get returns a packet whose transaction was rolled back", what)
@@ -711,7 +1018,7 @@ func runStoreHistory(add func(report.Violation), u *sUniverse, hist []int, mode 
 								bad("C15.stores", s.n+": Get returns a wire that is not stored", what)
 							}
 						case prefix && q.IsPrefix(names[who]):
-							bad("C15.newest", s.n+": prefix Get returns an older version than the newest stored under the prefix", what+fmt.Sprintf(" (returned version %d, newest %d)", ref[who].ver, maxVer))
+							bad("C15.newest", s.n+": prefix Get returns an older version than the newest stored under the prefix", what+fmt.Sprintf(" (returned version %d, newest %d)", whoVer, maxVer))
 						default:
 							bad("C15.stores", s.n+": Get returns a packet that does not match the query", what)
 						}
@@ -731,7 +1038,17 @@ func runStoreHistory(add func(report.Violation), u *sUniverse, hist []int, mode 
 	}
 }
 
-func describe(ref map[string]*sRef, under []string, q string, prefix bool) string {
+// rolledBack: is w the wire of a Put that was a member of a rolled-back group (letter R)?
+func rolledBack(u *sUniverse, hist []int, modes []byte, w []byte) bool {
+	for k, oi := range hist {
+		if p := u.ops[oi].put; p != nil && modes[k] == 'R' && string(w) == p.s+"#"+string(rune('0'+k)) {
+			return true
+		}
+	}
+	return false
+}
+
+func describe(ref sWorld, under []string, q string, prefix bool) string {
 	if !prefix {
 		if r := ref[q]; r != nil {
 			return fmt.Sprintf("{%s v%d}", q, r.ver)
